@@ -3,10 +3,14 @@
      nunique_spec      the AVL-accelerated ProfFrame.nunique is the length of the reference
                        first-occurrence list uniq_cells (pandas' hashtable equality)
      abstracts         a column of cells is represented by a column of value ids (Model/Profiler.v):
-                       same length, ids equal exactly where the cells are equal under the hashtable
-                       equality, id None exactly where pd.isnull holds
-     nunique_abstracts / nmissing_abstracts   then len(S.unique()) = n_unique and
+                       same length, id None exactly where pd.isnull holds, and on the PRESENT cells ids
+                       equal exactly where the cells are equal under the hashtable equality (two missing
+                       cells may be spelled differently -- None and NaN -- both have the id None)
+     nunique_present_abstracts / nmissing_abstracts   then
+                       len(S.dropna().unique()) + (1 if sum(pd.isnull(S)) > 0 else 0) = n_unique and
                        sum(pd.isnull(S)) = n_missing of the model.
+     nunique_abstracts the old count len(S.unique()) = n_unique, under the additional hypothesis that the
+                       hashtable equality also agrees with the ids on the missing cells (one spelling).
    Lists / Z only: axiom-free.                                                                 *)
 From Coq Require Import ZArith Bool List String SpecFloat Lia SetoidList.
 From SSJ Require Import F64 PyNum Frame ProfFrame Profiler.
@@ -207,17 +211,26 @@ Proof.
 Qed.
 
 (* ------------------------------------------------------------------ cells vs value ids *)
+Definition present (c : pyval) : bool := negb (cell_missing c).
+
 Definition abstracts (cells : list pyval) (col : column) : Prop :=
   List.length cells = List.length col /\
   (forall p q, In p (combine cells col) -> In q (combine cells col) ->
+     cell_missing (fst p) = false -> cell_missing (fst q) = false ->
      cell_key_eq (fst p) (fst q) = oz_eqb (snd p) (snd q)) /\
   (forall p, In p (combine cells col) -> cell_missing (fst p) = is_missing (snd p)).
+
+(* the hashtable equality agrees with the ids on ALL cells: every missing cell is spelled the same way *)
+Definition one_spelling (cells : list pyval) (col : column) : Prop :=
+  forall p q, In p (combine cells col) -> In q (combine cells col) ->
+    cell_key_eq (fst p) (fst q) = oz_eqb (snd p) (snd q).
 
 (* executable form, for closed instances *)
 Definition abstracts_b (cells : list pyval) (col : column) : bool :=
   let ps := combine cells col in
   Nat.eqb (List.length cells) (List.length col) &&
-  forallb (fun p => forallb (fun q => Bool.eqb (cell_key_eq (fst p) (fst q)) (oz_eqb (snd p) (snd q))) ps) ps &&
+  forallb (fun p => forallb (fun q => cell_missing (fst p) || cell_missing (fst q) ||
+                                      Bool.eqb (cell_key_eq (fst p) (fst q)) (oz_eqb (snd p) (snd q))) ps) ps &&
   forallb (fun p => Bool.eqb (cell_missing (fst p)) (is_missing (snd p))) ps.
 
 Lemma abstracts_b_sound cells col : abstracts_b cells col = true -> abstracts cells col.
@@ -226,8 +239,8 @@ Proof.
   apply andb_prop in H. destruct H as [H H3]. apply andb_prop in H. destruct H as [H1 H2].
   apply Nat.eqb_eq in H1. rewrite forallb_forall in H2, H3.
   split; [exact H1|]. split.
-  - intros p q Hp Hq. specialize (H2 p Hp). rewrite forallb_forall in H2.
-    apply eqb_prop. apply H2. exact Hq.
+  - intros p q Hp Hq Mp Mq. specialize (H2 p Hp). rewrite forallb_forall in H2.
+    specialize (H2 q Hq). rewrite Mp, Mq in H2. cbn [orb] in H2. apply eqb_prop. exact H2.
   - intros p Hp. apply eqb_prop. apply H3. exact Hp.
 Qed.
 
@@ -245,10 +258,11 @@ Proof.
   cbn [List.length] in H. cbn [snd]. now rewrite IH by lia.
 Qed.
 
-Theorem nunique_abstracts : forall cells col, abstracts cells col ->
+(* the old count, len(S.unique()): needs one spelling of the missing value *)
+Theorem nunique_abstracts : forall cells col, abstracts cells col -> one_spelling cells col ->
   Z.of_nat (nunique cells) = n_unique col.
 Proof.
-  intros cells col (Hlen & Heq & _). unfold n_unique. f_equal.
+  intros cells col (Hlen & _ & _) Heq. unfold n_unique. f_equal.
   rewrite nunique_spec, uniq_cells_dedup_by, dedup_dedup_by.
   rewrite <- (map_fst_combine cells col Hlen) at 1.
   rewrite <- (map_snd_combine cells col Hlen) at 2.
@@ -269,10 +283,82 @@ Proof.
   rewrite !filter_map_length. f_equal. apply filter_ext_in'. exact Hm.
 Qed.
 
+(* ------------------------------------------------------------------ the present cells + one missing value *)
+Lemma oz_eqb_missing_sep a b : is_missing a = false -> is_missing b = true -> oz_eqb a b = false.
+Proof. destruct a, b; cbn [is_missing oz_eqb]; intros; try discriminate; reflexivity. Qed.
+
+Lemma oz_eqb_missing_sep' a b : negb (is_missing a) = false -> negb (is_missing b) = true -> oz_eqb a b = false.
+Proof. destruct a, b; cbn [is_missing oz_eqb negb]; intros; try discriminate; reflexivity. Qed.
+
+Lemma filter_true {A} (p : A -> bool) l : (forall x, In x l -> p x = true) -> filter p l = l.
+Proof.
+  induction l as [|a l IH]; intros H; cbn [filter]; [reflexivity|].
+  rewrite (H a (or_introl eq_refl)), IH; [reflexivity|]. intros x Hx. apply H. right; exact Hx.
+Qed.
+
+Lemma filter_false {A} (p : A -> bool) l : (forall x, In x l -> p x = false) -> filter p l = [].
+Proof.
+  induction l as [|a l IH]; intros H; cbn [filter]; [reflexivity|].
+  rewrite (H a (or_introl eq_refl)), IH; [reflexivity|]. intros x Hx. apply H. right; exact Hx.
+Qed.
+
+(* first occurrences among missing ids only: one if there is any *)
+Lemma dedup_all_missing (l : column) : (forall x, In x l -> x = None) ->
+  List.length (dedup_by oz_eqb l) = match l with [] => O | _ :: _ => 1%nat end.
+Proof.
+  destruct l as [|a l]; intros H; cbn [dedup_by]; [reflexivity|].
+  rewrite filter_false; [reflexivity|].
+  intros x Hx. apply dedup_by_incl in Hx.
+  rewrite (H a (or_introl eq_refl)), (H x (or_intror Hx)). reflexivity.
+Qed.
+
+(* the model's count = distinct present ids + one for the missing value, if it occurs *)
+Lemma n_unique_split (col : column) :
+  n_unique col
+  = Z.of_nat (List.length (dedup_by oz_eqb (filter (fun c => negb (is_missing c)) col)))
+    + (if 0 <? n_missing col then 1 else 0).
+Proof.
+  unfold n_unique, n_missing. rewrite dedup_dedup_by.
+  rewrite (filter_length_split is_missing (dedup_by oz_eqb col)).
+  rewrite !dedup_by_filter.
+  - rewrite dedup_all_missing.
+    + destruct (filter is_missing col) as [|a t]; cbn [List.length]; [cbn; lia|].
+      replace (0 <? Z.of_nat (S (List.length t))) with true by (symmetry; apply Z.ltb_lt; lia). lia.
+    + intros x Hx. apply filter_In in Hx. destruct Hx as [_ Hx]. destruct x; [discriminate | reflexivity].
+  - intros a b _ _. apply oz_eqb_missing_sep'.
+  - intros a b _ _. apply oz_eqb_missing_sep.
+Qed.
+
+(* len(S.dropna().unique()) (+ 1 if sum(pd.isnull(S)) > 0) is the model's number of distinct values, a
+   missing value counting as one -- however the missing cells are spelled *)
+Theorem nunique_present_abstracts : forall cells col, abstracts cells col ->
+  Z.of_nat (nunique_present cells) + (if 0 <? n_missing col then 1 else 0) = n_unique col.
+Proof.
+  intros cells col (Hlen & Heq & Hm). rewrite n_unique_split. f_equal. f_equal.
+  unfold nunique_present. rewrite nunique_spec, uniq_cells_dedup_by.
+  rewrite <- (map_fst_combine cells col Hlen) at 1.
+  rewrite <- (map_snd_combine cells col Hlen) at 2.
+  rewrite !filter_map_comm, !dedup_by_map, !map_length.
+  rewrite (filter_ext_in' (fun x => negb (is_missing (snd x))) (fun x => negb (cell_missing (fst x)))
+             (combine cells col)) by (intros p Hp; now rewrite (Hm p Hp)).
+  f_equal. apply dedup_by_ext_in. intros p q Hp Hq.
+  apply filter_In in Hp. apply filter_In in Hq. destruct Hp as [Hp Mp], Hq as [Hq Mq].
+  apply negb_true_iff in Mp. apply negb_true_iff in Mq. apply Heq; assumption.
+Qed.
+
+(* on a column with one spelling of the missing value the old and the new count coincide *)
+Corollary nunique_present_old : forall cells col, abstracts cells col -> one_spelling cells col ->
+  Z.of_nat (nunique_present cells) + (if 0 <? n_missing col then 1 else 0) = Z.of_nat (nunique cells).
+Proof.
+  intros cells col H H1. now rewrite (nunique_present_abstracts _ _ H), (nunique_abstracts _ _ H H1).
+Qed.
+
 Lemma abstracts_length cells col : abstracts cells col -> List.length cells = List.length col.
 Proof. intros H. apply H. Qed.
 
 Print Assumptions nunique_spec.
 Print Assumptions nunique_abstracts.
+Print Assumptions nunique_present_abstracts.
+Print Assumptions nunique_present_old.
 Print Assumptions nmissing_abstracts.
 Print Assumptions abstracts_b_sound.
